@@ -394,9 +394,21 @@ pub fn lane_skip(seed: u64) -> Vec<Scenario> {
         CustomInline,
         OtherTestsCode,
         EightyButCustom,
+        /// both layers set: the inline code (33) is the test's skip code, the defaults' (99) is not
+        LayeredInlineWins,
+        /// both layers set and the test exits with the defaults' code (99), which is not its skip code
+        LayeredDefaultsCodeNoSkip,
     }
     for cram in [false, true] {
-        for how in [How::Default80, How::CustomDefaults, How::CustomInline, How::OtherTestsCode, How::EightyButCustom] {
+        for how in [
+            How::Default80,
+            How::CustomDefaults,
+            How::CustomInline,
+            How::OtherTestsCode,
+            How::EightyButCustom,
+            How::LayeredInlineWins,
+            How::LayeredDefaultsCodeNoSkip,
+        ] {
             if cram && how != How::Default80 {
                 continue;
             }
@@ -406,6 +418,7 @@ pub fn lane_skip(seed: u64) -> Vec<Scenario> {
                         let mut sim = base_sim(g.rng.next_u64());
                         let code = match how {
                             How::Default80 | How::EightyButCustom => 80,
+                            How::LayeredDefaultsCodeNoSkip => 99,
                             _ => 33,
                         };
                         let exp = match expected {
@@ -424,7 +437,7 @@ pub fn lane_skip(seed: u64) -> Vec<Scenario> {
                                 if how == How::CustomInline {
                                     p.cfg.skip_code = Some(33);
                                 }
-                                if how == How::EightyButCustom {
+                                if matches!(how, How::EightyButCustom | How::LayeredInlineWins | How::LayeredDefaultsCodeNoSkip) {
                                     p.cfg.skip_code = Some(33);
                                 }
                                 p
@@ -444,6 +457,9 @@ pub fn lane_skip(seed: u64) -> Vec<Scenario> {
                         let mut a = doc(&format!("a/skipper.{}", ext), f, tests);
                         if how == How::CustomDefaults {
                             a.defaults.skip_code = Some(33);
+                        }
+                        if matches!(how, How::LayeredInlineWins | How::LayeredDefaultsCodeNoSkip) {
+                            a.defaults.skip_code = Some(99);
                         }
                         let other_plan = match other {
                             "pass" => Plan::new(Fate::Pass),
